@@ -3,24 +3,26 @@
    Assumptions.  Quantifiers: every mode, every list of rows (no bound on the
    number of rows or on the integers in them), every configuration view, every
    file system view (all byte contents of every log, NUL and CR included, every
-   file absent or unreadable).
+   file absent, or there but unreadable).
 
-   [report_struct_rows] / [render] are the model of report.c (ReportDefs.v, tied
-   to the binary by the byte-exact correspondence check on robsd-report's
-   standard output); [spec_status], [spec_shown], [spec_body], [spec_error] the
-   specification (ReportSpec.v).  [report_struct] is the same function on the
-   rows of C01's step file model ([C05_on_step_file_rows]).
+   [report_struct_rows] / [render] / [report_main] are the model of report.c AS THE WORKING TREE HAS IT
+   (ReportDefs.v: the [_with] functions at [cur_sw], the forms the translator found; tied to the binary by the
+   byte-exact correspondence check on robsd-report's standard output); [spec_status], [spec_shown], [spec_body],
+   [spec_error] the specification (ReportSpec.v), which reads the property: every non-skipped row with a non-zero
+   exit - exit -1 included - has its section; a log that does not exist is an empty log; the cvs step shows the cvs
+   logs collected in its mode (robsd, robsd-ports, robsd-regress).  The area files prove everything for [fixed_sw]
+   (every repair in place); each theorem below is stated for the working tree and closed by [exact <lemma about
+   fixed_sw>], which type-checks exactly when the generated switches compute to [fixed_sw]
+   ([C05_source_has_every_repair]).  So reverting any of 91740ae (D14), da850b3 (D18), the D24 repair or the D25
+   repair breaks these theorems here, in this file, and nothing in the area files; the witnesses for the earlier
+   forms of the source ([C05_missing_log_refuted], [C05_regress_cvs_refuted], [C05_body_refuted], ...) are
+   unconditional theorems about [sw_before_*] and stay true.
 
-   The body clause of the property,
-       forall m cfg fs r, step_log m cfg fs r = spec_body m cfg fs r,
-   holds in full for the source as it is now ([C05_body_current]: both excerpt prints copy the bytes).  It was
-   refuted by the shipped "%.*s" / "%s" (D14, repaired in /repo 91740ae); the witnesses of that time
-   ([C05_body_refuted], [C05_canvas_body_refuted]) and the conditional forms ([C05_body], [C05_body_partial])
-   are kept as Remarks: historical pins, vacuous or redundant in the current tree, not results.
-
-   What "never hidden" does NOT cover is stated as theorems too: when a log that has to be read cannot be read
-   there is no report at all ([C05_report_main_silent], [C05_never_hidden_refuted], [C05_never_hidden_or_silent]). *)
-From Robsd Require Import Report.ReportSpec Report.ReportProofs Report.ReportNeverHidden Report.TailSpec Report.DurationProofs.
+   [cvs_guard m fs] (m = Ports, or no cvs log of the mode is there-but-unreadable) and [inside] name what is outside
+   the property's quantifier: files that are there and cannot be read, a lock file that is missing, a passing dpb
+   step without packages.diff, a regress row without log name - each argued in ReportSpec.v. *)
+From Robsd Require Import Report.ReportSpec Report.ReportProofs Report.ReportNeverHidden Report.TailSpec Report.DurationProofs
+                          Report.ReportBytes.
 From Robsd Require Orch.ResumeDefs Orch.ResumeExec Orch.WrittenInv Orch.ReportBridge.
 Local Open Scope N_scope.
 
@@ -32,6 +34,13 @@ Remark C05_on_step_file_rows : forall m cfg (rows : list row) fs,
   report_struct m cfg rows fs = report_struct_rows m cfg (map view rows) fs.
 Proof. exact (fun m cfg rows fs => eq_refl). Qed.
 Print Assumptions C05_on_step_file_rows.
+
+(* THE PIN: the forms of report.c the translator found in the working tree (whole-body comparison of
+   report_step_log, canvas_report_step_log, regress_report_step_log; the test in report_cvs_log; its table) are the
+   repaired ones.  Stops compiling - with every theorem below that is about the working tree - when one is reverted. *)
+Theorem C05_source_has_every_repair : cur_sw = fixed_sw.
+Proof. exact eq_refl. Qed.
+Print Assumptions C05_source_has_every_repair.
 
 (* Status (Subject: and Status: print the same string, [render_subject]/[render_raw]):
    it is the specified one; it says ok exactly when no non-skipped row has a
@@ -100,7 +109,7 @@ Theorem C05_status_is_printed : forall m cfg host content fs out rows,
     out = spec_sanitize (s_subject ++ subject_text host rep ++ [10; 10] ++
                          s_stats ++ [10] ++ s_status ++ rp_status rep ++ [10]) ++ post /\
     exists pre, subject_text host rep = pre ++ rp_status rep.
-Proof. exact status_is_printed. Qed.
+Proof. exact (status_is_printed cur_sw). Qed.
 Print Assumptions C05_status_is_printed.
 
 (* Sections: name, exit (as printed by "%d" of (int)exit) and log name of the
@@ -108,6 +117,7 @@ Print Assumptions C05_status_is_printed.
    with a non-zero exit is listed, a skipped row never is, a listed row with
    exit 0 is one of the rows shown although they passed. *)
 Theorem C05_every_failure_has_section : forall m cfg rows fs rep,
+  cvs_guard m fs ->
   report_struct_rows m cfg rows fs = ROk rep ->
   map (fun s => (s_name s, (s_exit s, s_log s))) (rp_sections rep) =
     map (fun r => (r_name r, (cast_int (r_exit r), r_log r))) (filter (spec_shown m cfg fs) rows) /\
@@ -119,6 +129,7 @@ Print Assumptions C05_every_failure_has_section.
 
 (* each section is made of its row: duration line and body too *)
 Theorem C05_sections_exact : forall m cfg rows fs rep,
+  cvs_guard m fs ->
   report_struct_rows m cfg rows fs = ROk rep ->
   rp_sections rep = map (fun r => section_of r (body_or_nil m cfg fs r)) (filter (spec_shown m cfg fs) rows) /\
   (forall r, In r (filter (spec_shown m cfg fs) rows) -> step_log m cfg fs r = ROk (body_or_nil m cfg fs r)).
@@ -134,6 +145,7 @@ Print Assumptions C05_exit_printed_as_is.
    among the listed rows, with the specified body; its sanitized text - name, exit, duration, log name, body -
    is part of what robsd-report prints *)
 Theorem C05_failure_has_section : forall m cfg a r b fs rep,
+  cvs_guard m fs ->
   report_struct_rows m cfg (a ++ r :: b) fs = ROk rep -> failing r = true ->
   exists bd,
     spec_body m cfg fs r = ROk bd /\
@@ -145,6 +157,7 @@ Proof. exact failure_has_section. Qed.
 Print Assumptions C05_failure_has_section.
 
 Theorem C05_failed_step_is_printed : forall m cfg host content fs out rows a r b,
+  cvs_guard m fs ->
   report_main m cfg host (Some content) fs = (0, out) ->
   parse_file content = Some rows -> map view rows = a ++ r :: b -> failing r = true ->
   exists bd pre post,
@@ -156,61 +169,137 @@ Theorem C05_failed_step_is_printed : forall m cfg host content fs out rows a r b
 Proof. exact failed_step_is_printed. Qed.
 Print Assumptions C05_failed_step_is_printed.
 
-(* no report at all (exit 1, nothing printed) exactly when the lock file is
-   missing, the comment cannot be read, a passing regress suite that is not
-   quiet has no log name, or the log (cvs log in ports mode, packages.diff) of
-   a listed row cannot be read *)
+(* NEVER HIDDEN.  Inside the property's quantifier ([inside]: the lock file of the running invocation is there, no
+   file a row needs is there-but-unreadable, a passing dpb step has its packages.diff, regress rows carry log names;
+   [cvs_guard]: no cvs log is there-but-unreadable) a report IS produced - whichever logs exist or do not exist,
+   in-flight rows (exit -1) whose log tee never created included - and every failing row has its section, at its
+   place among the listed rows, with the specified body *)
+Theorem C05_never_hidden : forall m cfg fs rows,
+  inside m cfg fs rows -> cvs_guard m fs ->
+  exists rep, report_struct_rows m cfg rows fs = ROk rep /\
+    forall a r b, rows = a ++ r :: b -> failing r = true ->
+      exists bd sa sb, spec_body m cfg fs r = ROk bd /\ rp_sections rep = sa ++ section_of r bd :: sb /\
+                       List.length sa = List.length (filter (spec_shown m cfg fs) a).
+Proof. exact never_hidden. Qed.
+Print Assumptions C05_never_hidden.
+
+(* a file system without unreadable files meets the cvs guard *)
+Theorem C05_readable_meets_guard : forall m fs, (forall n, f_tmp fs n <> FUnreadable) -> cvs_guard m fs.
+Proof. exact cvs_readable_guard. Qed.
+Print Assumptions C05_readable_meets_guard.
+
+(* the specified body of a row whose log does not exist: the empty excerpt (one newline after the Log: line), in
+   every mode that shows the log (the cvs step shows the cvs logs) *)
+Theorem C05_absent_log_is_empty_excerpt : forall m cfg fs r x l,
+  r_log r = x :: l -> f_log fs (r_log r) = FAbsent -> beq (r_name r) name_cvs = false ->
+  (m = Ports -> beq (r_name r) name_dpb && (r_exit r =? 0)%Z = false) ->
+  spec_body m cfg fs r = ROk [10] /\ step_log m cfg fs r = ROk [10].
+Proof. exact absent_log_is_empty_excerpt. Qed.
+Print Assumptions C05_absent_log_is_empty_excerpt.
+
+(* no report at all (exit 1, nothing printed) exactly under [spec_error] ... *)
 Theorem C05_report_error_iff : forall m cfg rows fs,
-  report_struct_rows m cfg rows fs = RErr <-> spec_error m cfg fs rows = true.
+  cvs_guard m fs ->
+  (report_struct_rows m cfg rows fs = RErr <-> spec_error m cfg fs rows = true).
 Proof. exact report_error_iff. Qed.
 Print Assumptions C05_report_error_iff.
 
-(* THE CAVEAT of "never hidden".  Full statement (refuted):
-       forall m cfg fs rows r, In r rows -> failing r = true -> exists rep, report_struct_rows m cfg rows fs = ROk rep
-   When [spec_error] holds robsd-report exits 1 and prints nothing at all, whatever failed: no Subject:, no
-   status, no section.  Witnesses: (i) the log of the failing step itself is unreadable; (ii) the failing
-   step's log is fine but a PASSING step that is always listed (dpb in robsd-ports mode, packages.diff missing)
-   cannot be rendered.  These are outside the property's quantifier as far as the orchestrator's own files go
-   (tee creates the log of every step that ran); the case that did occur in practice - cvs logs that were
-   never written, D18 - is repaired ([C05_ports_cvs_logs_missing_holds_now]).
-   [C05_never_hidden_or_silent] is the statement under the exact guard. *)
+(* ... and [spec_error] holds only OUTSIDE the property's quantifier: the lock file is missing, the comment is
+   there but unreadable, or a non-skipped row names a file that is there but unreadable / is a passing dpb row
+   without packages.diff / is a regress row without a log name.  A log that does not exist is not among them. *)
+Theorem C05_error_only_outside : forall m cfg fs rows,
+  spec_error m cfg fs rows = true ->
+  c_running cfg = false \/ f_comment fs = FUnreadable \/
+  exists r, In r rows /\ nonskipped r = true /\
+    (names_unreadable m fs r = true \/ dpb_without_diff m fs r = true \/ regress_without_log_name m r = true).
+Proof. exact error_only_outside. Qed.
+Print Assumptions C05_error_only_outside.
+
 Theorem C05_report_main_silent : forall m cfg host content rows fs,
+  cvs_guard m fs ->
   parse_file content = Some rows -> spec_error m cfg fs (map view rows) = true ->
   report_main m cfg host (Some content) fs = (1, []).
 Proof. exact report_main_silent. Qed.
 Print Assumptions C05_report_main_silent.
 
-Theorem C05_never_hidden_refuted :
+(* witnesses of the two kinds of "outside": (i) the failing step's own log is a directory; (ii) a PASSING dpb step
+   without packages.diff takes the report of the failing step after it down *)
+Theorem C05_outside_witnesses :
   (In silent_row [silent_row] /\ failing silent_row = true /\
-   c_running d14_cfg = true /\ f_comment silent_files = FAbsent /\
-   report_struct_rows Robsd d14_cfg [silent_row] silent_files = RErr) /\
+   c_running d14_cfg = true /\ f_comment unreadable_files = FAbsent /\
+   names_unreadable Robsd unreadable_files silent_row = true /\
+   report_struct_rows Robsd d14_cfg [silent_row] unreadable_files = RErr) /\
   (failing silent_row = true /\ failing silent_dpb = false /\
-   f_log readable_files (r_log silent_row) = Some [111; 10] /\
+   f_log readable_files (r_log silent_row) = FData [111; 10] /\
+   dpb_without_diff Ports readable_files silent_dpb = true /\
    report_struct_rows Ports d14_cfg [silent_dpb; silent_row] readable_files = RErr /\
    (exists rep, report_struct_rows Ports d14_cfg [silent_row] readable_files = ROk rep)).
 Proof. exact (conj never_hidden_refuted_own_log never_hidden_refuted_other_row). Qed.
-Print Assumptions C05_never_hidden_refuted.
+Print Assumptions C05_outside_witnesses.
 
-(* D18 as the source is now (/repo da850b3; the translator reads the test in report_cvs_log): a robsd-ports
-   invocation whose cvs logs were never written gets its report - cvs section without change logs, then the
-   failing step.  Pin: stops compiling if the test goes back to "only an empty file is passed over". *)
+(* D24 (findings/D24_report_missing_step_log.md).  step_exec_job writes the in-flight record WITH the log name
+   before tee creates the log.  An invocation killed in between leaves a row (exit -1) whose log does not exist.
+   report.c as shipped ([sw_before_d24]): robsd-report prints nothing at all for such a directory, in every mode -
+   the step that really failed before it (exit 3, log present) goes unreported too - although nothing of
+   [spec_error] holds and the specified body of the row is the empty excerpt.  Full statement refuted by it:
+       forall m cfg fs rows, inside m cfg fs rows -> cvs_guard m fs -> exists rep, report_struct_rows_with sw_before_d24 ... = ROk rep *)
+Theorem C05_missing_log_refuted :
+  failing d24_failed = true /\ failing d24_inflight = true /\
+  f_log d24_files (r_log d24_inflight) = FAbsent /\
+  forall m, spec_error m d14_cfg d24_files d24_rows = false /\
+            cvs_guard m d24_files /\
+            report_struct_rows_with sw_before_d24 m d14_cfg d24_rows d24_files = RErr /\
+            spec_body m d14_cfg d24_files d24_inflight = ROk [10] /\
+            step_log_with sw_before_d24 m d14_cfg d24_files d24_inflight = RErr.
+Proof. exact missing_log_refuted. Qed.
+Print Assumptions C05_missing_log_refuted.
+
+(* ... and the working tree: both sections, the in-flight one with the empty excerpt, status "2 failures" (canvas) *)
+Theorem C05_missing_log_holds_now :
+  (exists rep, report_struct_rows Canvas d14_cfg d24_rows d24_files = ROk rep /\
+     rp_status rep = count_text 2 /\
+     map (fun s => (s_name s, s_exit s, s_body s)) (rp_sections rep) =
+       [(r_name d24_failed, 3%Z, [10; 111; 10]); (r_name d24_inflight, (-1)%Z, [10])]) /\
+  (forall m, exists rep, report_struct_rows m d14_cfg d24_rows d24_files = ROk rep /\
+     map s_name (rp_sections rep) = [r_name d24_failed; r_name d24_inflight]).
+Proof. exact missing_log_holds_when_fixed. Qed.
+Print Assumptions C05_missing_log_holds_now.
+
+(* D25 (findings/D25_report_regress_cvs.md).  robsd-regress has a cvs step and robsd-cvs.sh collects cvs-src-up.log /
+   cvs-src-ci.log for it; the table of report_cvs_log had no ROBSD_REGRESS rows ([sw_before_d25]), so the section
+   of a failed cvs step held one empty line - neither the cvs logs the property promises nor the tail of its log *)
+Theorem C05_regress_cvs_refuted :
+  failing d25_cvs = true /\
+  step_log_with sw_before_d25 Regress d14_cfg d25_files d25_cvs = ROk [10] /\
+  spec_body Regress d14_cfg d25_files d25_cvs = ROk [10; 80; 32; 97; 10; 10; 99; 49; 10] /\
+  step_log_with fixed_sw Regress d14_cfg d25_files d25_cvs = spec_body Regress d14_cfg d25_files d25_cvs.
+Proof. exact regress_cvs_refuted. Qed.
+Print Assumptions C05_regress_cvs_refuted.
+
+Theorem C05_regress_cvs_partial : forall m cfg fs r,
+  m <> Regress -> step_log_with sw_before_d25 m cfg fs r = step_log_with fixed_sw m cfg fs r.
+Proof. exact before_d25_same_outside_regress. Qed.
+Print Assumptions C05_regress_cvs_partial.
+
+(* D18 (/repo da850b3): a robsd-ports invocation whose cvs logs were never written gets its report - cvs section
+   without change logs, then the failing step; before, no report *)
 Theorem C05_ports_cvs_logs_missing_holds_now :
-  cvs_missing_skipped = true /\
   exists rep, report_struct_rows Ports d14_cfg [silent_cvs; silent_row] readable_files = ROk rep /\
     rp_status rep = str_failed_in ++ r_name silent_row /\
     map s_name (rp_sections rep) = [name_cvs; r_name silent_row] /\
     map s_body (rp_sections rep) = [[10]; [10; 111; 10]].
-Proof. exact ports_cvs_logs_missing_holds_now. Qed.
+Proof. exact ports_cvs_logs_missing_holds_when_fixed. Qed.
 Print Assumptions C05_ports_cvs_logs_missing_holds_now.
 
-(* HISTORICAL PIN, not a result: before da850b3 the first cvs log that did not exist ended the loop with an error *)
-Remark C05_cvs_missing_refuted :
-  cvs_missing_skipped = false ->
-  exists m fs, snd (cvs_log m fs) = true /\ snd (spec_cvs m fs) = false.
-Proof. exact cvs_missing_refuted. Qed.
-Print Assumptions C05_cvs_missing_refuted.
+Theorem C05_ports_cvs_logs_missing_refuted :
+  report_struct_rows_with sw_before_d18 Ports d14_cfg [silent_cvs; silent_row] readable_files = RErr /\
+  spec_error Ports d14_cfg readable_files [silent_cvs; silent_row] = false.
+Proof. exact ports_cvs_logs_missing_refuted. Qed.
+Print Assumptions C05_ports_cvs_logs_missing_refuted.
 
+(* the dichotomy: no report exactly under [spec_error], else every failing row has its section *)
 Theorem C05_never_hidden_or_silent : forall m cfg rows fs,
+  cvs_guard m fs ->
   (spec_error m cfg fs rows = true /\ report_struct_rows m cfg rows fs = RErr) \/
   (spec_error m cfg fs rows = false /\
    exists rep, report_struct_rows m cfg rows fs = ROk rep /\
@@ -219,6 +308,14 @@ Theorem C05_never_hidden_or_silent : forall m cfg rows fs,
                         List.length sa = List.length (filter (spec_shown m cfg fs) a)).
 Proof. exact never_hidden_or_silent. Qed.
 Print Assumptions C05_never_hidden_or_silent.
+
+(* the one place where an unreadable file does not end the report (so outside [cvs_guard] the statements above are
+   not made): outside robsd-ports report_cvs_log's result is tested with "< 0" although STEP_LOG_ERROR is 3 *)
+Theorem C05_unreadable_cvs_log_not_an_error :
+  exists fs r, cvs_unreadable fs (spec_cvs_names Robsd) = true /\ failing r = true /\
+    spec_body Robsd d14_cfg fs r = RErr /\ step_log Robsd d14_cfg fs r = ROk [10].
+Proof. exact unreadable_cvs_log_not_an_error. Qed.
+Print Assumptions C05_unreadable_cvs_log_not_an_error.
 
 (* the excerpt function is "the lines from the n-th last non-empty line on" *)
 Theorem C05_last_lines : forall c n, last_lines c n = spec_tail n c.
@@ -243,44 +340,32 @@ Theorem C05_short_log_shown_whole : forall c,
 Proof. exact short_log_shown_whole. Qed.
 Print Assumptions C05_short_log_shown_whole.
 
-(* Body under the exact guard: the shown part of the log holds no NUL byte (or
+(* THE BODY CLAUSE for the working tree: what follows the Log: line is the specified text - the last lines of the
+   log (empty excerpt for a log that does not exist), the cvs logs of the mode for the cvs step, packages.diff,
+   the regress blocks, the whole canvas log *)
+Theorem C05_body_current : forall m cfg fs r, cvs_guard m fs -> step_log m cfg fs r = spec_body m cfg fs r.
+Proof. exact step_log_fixed. Qed.
+Print Assumptions C05_body_current.
+
+(* D14 under its exact guard, for either form of the two prints: the shown part of the log holds no NUL byte (or
    the bytes are copied) *)
-Remark C05_body_partial : forall m cfg fs r,
-  body_guard excerpt_copies_bytes canvas_copies_bytes m fs r ->
-  step_log m cfg fs r = spec_body m cfg fs r.
+Remark C05_body_partial : forall ce cc m cfg fs r,
+  body_guard ce cc m fs r -> cvs_guard m fs ->
+  step_log_with (sw_copies ce cc) m cfg fs r = spec_body m cfg fs r.
 Proof. exact body_partial. Qed.
 Print Assumptions C05_body_partial.
 
-(* HISTORICAL PIN (premises are the generated flags, both [true] in the current tree: this is C05_body_current) *)
-Remark C05_body : forall m cfg fs r,
-  excerpt_copies_bytes = true -> canvas_copies_bytes = true ->
-  step_log m cfg fs r = spec_body m cfg fs r.
-Proof. exact body_if_copied. Qed.
-Print Assumptions C05_body.
-
-(* the source as it is now copies the bytes (fix 91740ae): the body clause holds in
-   full; this stops compiling if either print goes back to a %s conversion *)
-Theorem C05_body_current : forall m cfg fs r, step_log m cfg fs r = spec_body m cfg fs r.
-Proof. exact (fun m cfg fs r => body_if_copied m cfg fs r eq_refl eq_refl). Qed.
-Print Assumptions C05_body_current.
-
-(* HISTORICAL PINS, not results: D14 was repaired in /repo (91740ae); the hypotheses below are generated
-   switches that are [true] now, so both statements are vacuously true in the current tree.  They become
-   meaningful again (and C05_body_current stops compiling) if a print goes back to a %s conversion.
-   D14: as shipped, a NUL byte in the last lines cut the excerpt - of "l1\nl2<NUL>mid\nlast\n" only
-   "l1\nl2" was printed *)
-Remark C05_body_refuted :
-  excerpt_copies_bytes = false ->
+(* D14 as shipped ("%.*s" / "%s", repaired in /repo 91740ae): a NUL byte in the last lines cut the excerpt - of
+   "l1\nl2<NUL>mid\nlast\n" only "l1\nl2" was printed *)
+Theorem C05_body_refuted :
   exists m cfg fs r, spec_shown m cfg fs r = true /\
-    step_log m cfg fs r <> spec_body m cfg fs r /\
-    step_log m cfg fs r = ROk [10; 108; 49; 10; 108; 50] /\
+    step_log_with sw_before_d14 m cfg fs r = ROk [10; 108; 49; 10; 108; 50] /\
     spec_body m cfg fs r = ROk (10 :: d14_log).
 Proof. exact body_refuted. Qed.
 Print Assumptions C05_body_refuted.
 
-Remark C05_canvas_body_refuted :
-  canvas_copies_bytes = false ->
-  exists cfg fs r, step_log Canvas cfg fs r <> spec_body Canvas cfg fs r.
+Theorem C05_canvas_body_refuted :
+  exists cfg fs r, step_log_with sw_before_d14 Canvas cfg fs r <> spec_body Canvas cfg fs r.
 Proof. exact canvas_body_refuted. Qed.
 Print Assumptions C05_canvas_body_refuted.
 
@@ -300,6 +385,7 @@ Print Assumptions C05_sanitize_is_spec.
    section keys, the body of every section, subject and status (the status oracle judges the files that meet
    the hypotheses of C05_status_ok_iff - which C05_status_orchestrated shows are the files that occur) *)
 Theorem C05_model_passes_oracles : forall x,
+  cvs_guard (x_mode x) (files_of x) ->
   spec_ok_exit x (fst (run_fixture x)) = true /\
   spec_ok_sane (snd (run_fixture x)) = true /\
   forall rows rep, rows_of x = Some rows ->
@@ -311,13 +397,24 @@ Theorem C05_model_passes_oracles : forall x,
 Proof. exact model_passes_all_oracles. Qed.
 Print Assumptions C05_model_passes_oracles.
 
+(* THE ORACLE ON BYTES.  The verdict of the harness on the implementation is [spec_ok_bytes]: exit status and standard
+   output compared byte for byte with the rendering of the report the specification describes ([spec_report]: status
+   by [spec_status] where the status hypotheses hold, the listed rows in order with name, exit, log name and
+   [spec_body]; exit 1 and no output under [spec_error]) - no parser in between.  It accepts the model's output for
+   every fixture.  (The oracles on fields above only name the clause when this one fails.) *)
+Theorem C05_bytes_oracle_accepts_model : forall x,
+  cvs_guard (x_mode x) (files_of x) ->
+  spec_ok_bytes x (fst (run_fixture x)) (snd (run_fixture x)) = true.
+Proof. exact model_passes_bytes_oracle. Qed.
+Print Assumptions C05_bytes_oracle_accepts_model.
+
 (* non-vacuity: a robsd build that failed in its second step after a skipped
    one; the log has eleven lines and the excerpt starts at the second *)
 Example C05_example :
   let log := [49; 10; 50; 10; 51; 10; 52; 10; 53; 10; 54; 10; 55; 10; 56; 10; 57; 10; 65; 10; 66; 10] in
   let rows := [mksrow [101; 110; 118] 0 3 0 [101] 1 0; mksrow [99] 0 0 0 [] 2 1;
                mksrow [107] 2 7 0 [107] 3 0] in
-  let fs := mkfiles (fun l => Some log) (fun _ => None) FAbsent None None None None (fun _ _ => None) in
+  let fs := mkfiles (fun l => FData log) (fun _ => FAbsent) FAbsent None None None None (fun _ _ => None) in
   reachable_seq rows /\
   match report_struct_rows Robsd d14_cfg rows fs with
   | ROk rep => rp_status rep = str_failed_in ++ [107] /\
